@@ -4,6 +4,7 @@ The package under test is imported from $VERIF_REPO (default /repo), placed firs
 sys.path so that it shadows the editable install in /venv.  Nothing is cached between runs.
 """
 import atexit
+import json
 import logging
 import os
 import shutil
@@ -54,7 +55,144 @@ def bind():
         lg.addHandler(capture)
     lg.propagate = False
     lg.setLevel(logging.DEBUG)
+    _install_guards()
     return codebasin
+
+
+# ------------------------------------------------------------------ call watchdog
+# An endless loop in the code under test must become a verdict about one case, not a check that never ends.
+# Entry points of codebasin are wrapped (in this process only) so that a call which gives no result within
+# CALL_DEADLINE seconds raises Hang inside the call; the harness code around it records it like any exception.
+# Every hang is also written, with what is needed to repeat the call, to a side file the main process reads
+# (core/result.hang_failures).  After MAX_HANGS hangs a process stops evaluating (HangSkip): the run is already
+# failing, and thousands of further cases at several seconds each would only delay the verdict.
+CALL_DEADLINE = float(os.environ.get("VERIF_CALL_DEADLINE", "60"))
+MAX_HANGS = 3
+_hangs = 0
+_armed = False
+
+
+class Hang(Exception):
+    pass
+
+
+class HangSkip(BaseException):
+    pass
+
+
+def _deadline():
+    return CALL_DEADLINE if _hangs == 0 else min(CALL_DEADLINE, 10.0)
+
+
+def _on_alarm(signum, frame):
+    raise Hang("no result within %gs (watchdog): endless loop or runaway computation" % _deadline())
+
+
+def _snapshot_dir(d, limit=200_000):
+    files, links, size = {}, {}, 0
+    for dp, dns, fns in os.walk(d):
+        for fn in sorted(fns + [x for x in dns if os.path.islink(os.path.join(dp, x))]):
+            p = os.path.join(dp, fn)
+            rel = os.path.relpath(p, d)
+            if os.path.islink(p):
+                links[rel] = os.readlink(p)
+                continue
+            try:
+                with open(p, errors="replace") as fh:
+                    t = fh.read()
+            except OSError:
+                continue
+            size += len(t)
+            if size > limit:
+                return files, links
+            files[rel] = t
+    return files, links
+
+
+def _describe_call(fn, a, k):
+    """JSON description of a guarded call, sufficient to repeat it (see result.replay_hang)."""
+    import re
+
+    name = fn.__qualname__
+    w = {"call": name}
+    try:
+        if name == "Lexer.tokenize":
+            w["string"] = a[0].string
+        elif name == "ArgumentParser.parse_args":
+            w["compiler"], w["argv"] = a[0].name, list(a[1])
+        elif name in ("MacroExpander.expand", "ExpressionEvaluator.evaluate"):
+            toks = a[1] if name == "MacroExpander.expand" else a[0].tokens
+            w["tokens"] = " ".join(str(t) for t in toks)
+            if name == "MacroExpander.expand":
+                w["macros"] = {str(n): str(m) for n, m in getattr(a[0].platform, "_definitions", {}).items()}
+        else:
+            reprs = [repr(x)[:2000] for x in a] + [f"{kk}={vv!r}"[:2000] for kk, vv in k.items()]
+            if name == "FileParser.parse_file":
+                reprs.append(a[0]._filename)
+            if name == "find":
+                w["codebase"] = {"directories": [str(d) for d in a[1]._directories], "exclude_patterns": list(a[1]._excludes)}
+                w["configuration"] = a[2]
+            root = scratch()
+            tops = sorted({m.group(0) for r in reprs + [json.dumps(w, default=str)] for m in re.finditer(re.escape(root) + r"/[^/'\"\s,)]+", r)})
+            w["args"] = reprs
+            w["scratch_dirs"] = {}
+            for t in tops[:3]:
+                if os.path.isdir(t):
+                    files, links = _snapshot_dir(t)
+                    w["scratch_dirs"][t] = {"files": files, "links": links}
+    except Exception as e:  # noqa
+        w["describe_error"] = f"{type(e).__name__}: {e}"
+    return w
+
+
+def hang_log():
+    return os.path.join(scratch(), "hangs.jsonl")
+
+
+def guard(fn):
+    import functools
+    import threading
+
+    @functools.wraps(fn)
+    def wrapper(*a, **k):
+        global _armed, _hangs
+        # outermost call only; leave a check's own (shorter) timer alone
+        if _armed or threading.current_thread() is not threading.main_thread() or signal.getitimer(signal.ITIMER_REAL)[0] > 0:
+            return fn(*a, **k)
+        if _hangs >= MAX_HANGS:
+            raise HangSkip(f"{_hangs} calls into the code under test did not return in this process; evaluation abandoned")
+        _armed = True
+        old = signal.signal(signal.SIGALRM, _on_alarm)
+        # re-fires every second: code that swallows the exception and keeps looping is interrupted again
+        signal.setitimer(signal.ITIMER_REAL, _deadline(), 1.0)
+        try:
+            return fn(*a, **k)
+        except Hang:
+            signal.setitimer(signal.ITIMER_REAL, 0)
+            _hangs += 1
+            try:
+                with open(hang_log(), "a") as fh:
+                    fh.write(json.dumps(_describe_call(fn, a, k), default=str) + "\n")
+            except Exception:  # noqa
+                pass
+            raise
+        finally:
+            signal.setitimer(signal.ITIMER_REAL, 0)
+            signal.signal(signal.SIGALRM, old)
+            _armed = False
+
+    wrapper._cbimc_guard = True
+    return wrapper
+
+
+def _install_guards():
+    from codebasin import config, file_parser, finder, preprocessor, report
+
+    for obj, name in ((finder, "find"), (file_parser.FileParser, "parse_file"), (preprocessor.MacroExpander, "expand"), (preprocessor.ExpressionEvaluator, "evaluate"),
+                      (preprocessor.Lexer, "tokenize"), (config.ArgumentParser, "parse_args"), (config, "load_database"), (report, "find_duplicates")):
+        f = getattr(obj, name, None)
+        if f is not None and not getattr(f, "_cbimc_guard", False):
+            setattr(obj, name, guard(f))
 
 
 def _cleanup():
